@@ -209,7 +209,7 @@ def quorum_monitor(case, go_line):
     arb = None if hdr[2] == "-" else ("" if hdr[2] == "e" else hdr[2])
     parts = [p.strip() for p in go_line.split(" ; ")] if go_line else []
     chans = []
-    cause = None
+    cause, hist = None, set()
     for i, op in enumerate(ops):
         if i >= len(parts) or parts[i].startswith("panic:"):
             if i < len(parts):
@@ -231,11 +231,12 @@ def quorum_monitor(case, go_line):
         counts = [] if o["dbs"] == "-" else [tuple(map(int, x.split("!")[0].split(":"))) for x in o["dbs"].split(",")]
         bad = [(d, c) for d, c in counts if c != want]
         if not bad:
-            cause = None
+            cause, hist = None, set()
         else:
             if cause is None:
                 cause = (f[0], before)
-            kind = "stale" if all(c in (cause[1], before) for _, c in bad) else "wrong"
+            hist.add(before)          # counts of the follower lists since the first miss
+            kind = "stale" if all(c in hist for _, c in bad) else "wrong"
             yield ("quorum:%s-ack-count:%s" % (kind, cause[0]),
                    "ack DB count %s differs from the count %d of the current follower list (%d followers, mode %d%s) after %s"
                    % (bad, want, len(chans), mode, "" if arb is None else ", replica set " + (arb or "empty"), cause[0]),
